@@ -547,6 +547,15 @@ def check_formats(ctx, rule="C06.R10"):
         if fi.relpath.endswith("debug.py"):
             continue
         for node in ast.walk(fi.node):
+            if isinstance(node, ast.BinOp) and isinstance(node.op, ast.Mod) and isinstance(node.left, ast.BinOp) and isinstance(node.left.op, ast.Add) and \
+                    any(isinstance(x, ast.Constant) and isinstance(x.value, str) and "%" in x.value for x in ast.walk(node.left)) and \
+                    any(isinstance(x, (ast.Name, ast.Attribute, ast.Call)) for x in (node.left.left, node.left.right)):
+                # ("literal %s" + text) % args: the text becomes part of the format string; any '%' in it (a message quoting data) makes the
+                # formatting itself raise TypeError / ValueError in place of the error being reported
+                n += 1
+                ctx.ob(rule, fi, False, "the format string %s is assembled from a literal and run-time text before %% is applied: a '%%' in that text breaks the formatting" % ast.unparse(node.left)[:80],
+                       key="format string from data", node=node)
+                continue
             if not (isinstance(node, ast.BinOp) and isinstance(node.op, ast.Mod) and isinstance(node.left, ast.Constant) and isinstance(node.left.value, str)):
                 continue
             owner = getattr(node, "_parent", None)
@@ -664,7 +673,20 @@ def run(ctx):
     for fi, cls in protocol_functions(M, PARSE_SIDE):
         n3 += check_foreign(ctx, fi, cls, esc)
         n3 += check_tables(ctx, fi, cls)
-    ctx.floor("C06.R3", 10)
+    # lookups in the package's own byte tables raise KeyError / IndexError for a byte the table leaves out: the tables over byte values cover
+    # 0..255 (shared with C20.R4 / C10.R5) and the single-byte rotation table covers amounts 1..7 (shared with C15.R6)
+    from . import C20 as _C20, C15 as _C15
+    _C20.byte_tables(ctx, "C06.R3", ("lib/binary.py", "lib/hex.py"))
+    from ..core import Ctx as _Ctx15
+    sub15 = _Ctx15("C15", ctx.tier, ctx.root, model=ctx.model)
+    sub15._summ = summariser(ctx)
+    _C15.run(sub15)
+    for e in sub15.errors:
+        ctx.error("shared C15 rules: " + e)
+    for o in sub15.obligations:
+        if o.rule == "C15.R6" and o.key == "table direction":
+            ctx.ob("C06.R3", o.where, o.ok, o.what, key=o.key, loc=o.loc, detail=o.detail)
+    ctx.floor("C06.R3", 14)
     # ---------------------------------------------------------------- R6
     for fi, cls in protocol_functions(M, PARSE_SIDE):
         check_seeks(ctx, fi, cls)
